@@ -182,7 +182,7 @@ def gen_pull(rng, klass=None):
                 else:
                     x["resp"] = {"status": 0, "cancel": True}
                     x["fault"] = "cancel"
-        if not gated and rng.random() < 0.06:
+        if not gated and rng.random() < 0.04:
             # the registry stops sending in the middle of a body: Pull's read timeout has to end the request
             its = [it for e in a["env"].values() for it in (e["plan"] if e["single"] is None else [e["single"]]) if it["fault"] == "ok"]
             if its:
@@ -217,8 +217,8 @@ def gen_pull(rng, klass=None):
     if rng.random() < 0.2:
         # the name is already linked to another manifest (of the same length half of the time: Link's size shortcut)
         pre.append({"op": "link", "name": NAME[7:], "data": hx(b'{"layers":[{"digest":"sha256:%s","size":1}]}' % sha(rnd_content(rng, 3)).encode())})
-    return {"kind": "pull", "threshold": thr, "max_streams": -1 if gated else 1, "handler": handler, "pre": pre, "attempts": attempts,
-            "read_timeout_ms": 150 if any(a.get("stall") for a in attempts) else None,
+    return {"kind": "pull", "threshold": thr, "max_streams": rng.choice([-1, -1, -1, 2, 3, 0]) if gated else 1, "handler": handler, "pre": pre, "attempts": attempts,
+            "read_timeout_ms": 400 if any(a.get("stall") for a in attempts) else None,
             "plankind": sorted(set(plankind.values())), "klass": klass or ("pull-gated" if gated else "pull-seq") + ("-handler" if handler else "")}
 
 
